@@ -45,7 +45,7 @@ COMPONENTS = {
              'chain as for RPC)', 'event loop -> SimLoop', 'worker restart -> new launcher on a fresh loop'],
 }
 ASSUMPTIONS = ['task arguments are picklable', 'a rejected task comes back to the sender as TaskRejected']
-EXPECTED_COUNTERS = ['op:create', 'op:launch', 'op:continue', 'op:execute', 'op:bogus', 'op:snapshot', 'op:restart',
+EXPECTED_COUNTERS = ['sender:async', 'sender:thread', 'op:create', 'op:launch', 'op:continue', 'op:execute', 'op:bogus', 'op:snapshot', 'op:restart',
                      'probe:continue_tagged', 'probe:continue_missing', 'probe:rejected_no_persister', 'probe:nowait',
                      'probe:reply_error', 'persister:none', 'persister:memory', 'persister:pickle', 'loader:custom',
                      'via:loopcomm', 'via:direct']
@@ -128,6 +128,7 @@ def random_case(rng, tier):
         ops.extend(scenario)
     return {'programs': progs, 'persister': persister, 'loader': rng.choice(['default', 'default', 'custom']),
             'via': rng.choice(['loopcomm', 'loopcomm', 'direct']), 'ops': ops, 'load_context': rng.random() < 0.5,
+            'sender': rng.choice(['body', 'async', 'thread']),
             'delay': rng.choice([0, 0, 0.5])}
 
 
@@ -149,7 +150,8 @@ def shrink(case):
             candidate = copy.deepcopy(case)
             candidate['programs'][i] = smaller
             yield candidate
-    for key, simple in (('loader', 'default'), ('via', 'loopcomm'), ('delay', 0), ('persister', 'memory'), ('load_context', False)):
+    for key, simple in (('loader', 'default'), ('via', 'loopcomm'), ('delay', 0), ('persister', 'memory'), ('load_context', False),
+                        ('sender', 'body')):
         if case.get(key) != simple:
             candidate = copy.deepcopy(case)
             candidate[key] = simple
@@ -225,6 +227,16 @@ class Harness:
         self.communicator.delivery_queue.append({'delay': self.case.get('delay', 0)})
         return self.communicator.task_send(body)
 
+    def send_via_controller(self, kind, **kwargs):
+        """launch / continue through plumpy's controllers (message bodies are built by the library itself)."""
+        sender = self.case.get('sender', 'body')
+        self.communicator.delivery_queue.append({'delay': self.case.get('delay', 0)})
+        if sender == 'async':
+            method = getattr(self.controller, f'{kind}_process')
+            return self.loop.create_task(method(**kwargs))
+        method = getattr(self.thread_controller, f'{kind}_process')
+        return method(**kwargs)
+
     def settle(self):
         self.loop.run_until_quiescent()
 
@@ -294,7 +306,13 @@ def run(case):
                 body = process_comms.create_launch_body(harness.classes[prog_i], init_kwargs={'pid': pid} if pid else None,
                                                         persist=persist_flag, loader=harness.loader, nowait=nowait)
                 expect_reject = persist_flag and harness.persister is None
-                reply = harness.send(body)
+                if case['via'] != 'direct' and case.get('sender', 'body') != 'body':
+                    result.counters[f'sender:{case["sender"]}'] += 1
+                    reply = harness.send_via_controller('launch', process_class=harness.classes[prog_i],
+                                                        init_kwargs={'pid': pid} if pid else None, persist=persist_flag,
+                                                        loader=harness.loader, nowait=nowait)
+                else:
+                    reply = harness.send(body)
             elif name == 'continue':
                 _, ref, tag, nowait = op
                 target = pids.get(ref) if ref != 'unknown' else ('no-such-pid', None)
@@ -302,7 +320,11 @@ def run(case):
                     continue
                 body = process_comms.create_continue_body(target[0], tag=tag, nowait=nowait)
                 expect_reject = harness.persister is None
-                reply = harness.send(body)
+                if case['via'] != 'direct' and case.get('sender', 'body') != 'body':
+                    result.counters[f'sender:{case["sender"]}'] += 1
+                    reply = harness.send_via_controller('continue', pid=target[0], tag=tag, nowait=nowait)
+                else:
+                    reply = harness.send(body)
             elif name == 'execute':
                 _, prog_i, nowait = op
                 if case['via'] == 'direct':
